@@ -102,7 +102,7 @@ func layoutJSON(l *Layout) []map[string]interface{} {
 // C01 – Encode and Decode are mirror images
 
 func (a *Analysis) CheckC01(rep *Report) {
-	rep.Explanation = "Structural inverse-ness: for each of the codec types the flattened wire term of Encode and of Decode (all module callees inlined down to encoding/binary, bytes.Buffer and io atoms; loops summarised) are compared position by position: same atom kind, number type, byte order, byte-length expression, repetition structure bound to the same prefix, same nested type, same receiver field as source and destination, same discriminator table and key for dynamic parts, and no value transformation outside the lossless allow-list on either side. This decides the round trip for every value of the canonical domain under the axioms about encoding/binary, bytes.Buffer and io.ReadFull; it does not execute anything."
+	rep.Explanation = "Structural inverse-ness: for each of the codec types the flattened wire term of Encode and of Decode (all module callees inlined down to encoding/binary, bytes.Buffer and io atoms; loops summarised) are compared position by position: same atom kind, number type, byte order, byte-length expression, repetition structure bound to the same prefix, same nested type, same receiver field as source and destination, same discriminator table and key for dynamic parts, and no value transformation outside the lossless allow-list on either side. This decides the round trip for every value of the canonical domain under the axioms about encoding/binary, bytes.Buffer and io.ReadFull; it does not execute anything. M3: the fields a frame computes itself (length, checksum) are judged by C04 and C05, whose violations are violations here too – a frame whose patch may miss its placeholder or whose checksum covers the wrong bytes does not round-trip."
 	rep.Trusted = trustedBase()
 	rep.Exhaustive = true
 	nfields := 0
@@ -167,6 +167,21 @@ func (a *Analysis) CheckC01(rep *Report) {
 		}
 		if len(rep.Samples) < 4 {
 			rep.Sample(map[string]interface{}{"type": ct.Name, "encode": enc.WireCanon(), "decode": dec.WireCanon(), "body_nil_arms_not_compared": len(tl.EncNil)})
+		}
+	}
+	// M3: the statement compares computed length and checksum fields "against their correct values": the frames' own
+	// computations are judged by C04 and C05 (which includes C14); a frame that fails there does not round-trip
+	for _, sub := range []struct {
+		id  string
+		run func(*Report)
+	}{{"C04", a.CheckC04}, {"C05", a.CheckC05}} {
+		scratch := NewReport(sub.id, "other", "quick", 0)
+		sub.run(scratch)
+		for _, v := range scratch.Violations {
+			rep.Ob("M3-computed-fields-verified-by-"+sub.id, v.Key, false, v.Pos, "a field the frame computes itself does not pass "+sub.id+": "+v.Msg)
+		}
+		if len(scratch.Violations) == 0 {
+			rep.Ob("M3-computed-fields-verified-by-"+sub.id, "all-frames", true, "", "")
 		}
 	}
 	rep.Floor("codec_types", len(a.U.Types), goldenFloor("types", 170))
@@ -549,7 +564,7 @@ func (a *Analysis) CheckC03(rep *Report, tier string) {
 				walkEvents(p.Events, func(e *Event, _ int) {
 					switch e.Kind {
 					case EvWriteInt, EvReadInt, EvPatch:
-						if e.Order != "" {
+						if e.Order != "" && e.Order != "param" { // an order passed in by the caller is judged where it is passed (B1)
 							orders[e.Order] = a.P.Pos(e.Pos)
 						}
 					}
